@@ -167,7 +167,8 @@ def tuples_ok(shape: int, a: int, b: int, c: int, flag: bool) -> bool:
 
 
 def _same_var(orig, dec):
-    if list(orig.dims) != list(dec.dims) or not _eq_typed(orig.attrs, dec.attrs):
+    # dims come back as the same kind of sequence (a list stays a list, the () of a 0-d variable stays a tuple)
+    if list(orig.dims) != list(dec.dims) or type(orig.dims) is not type(dec.dims) or not _eq_typed(orig.attrs, dec.attrs):
         return False
     want = NP.asarray(orig.data)
     return same(want, dec.data)
